@@ -281,6 +281,15 @@ def _h_fit(ctx, cls, n, n_nan, ypat, params, companions, props, dev_ypat=None):
                     check_c02_dev(ctx, obj, col, list(y), dev, params)
             if "C09" in props and not is_carver:
                 check_c09(ctx, cls, obj, col, n, n_nan, params)
+        # ------------------------------------------------------------------ read-only calls do not change later transforms
+        if set(props) & {"C04", "C07", "C16"} and kept:
+            obj.summary()
+            if getattr(ctx, "concrete", False):
+                obj.to_json()
+            if is_carver:
+                obj.history()
+            again = list(obj.transform(X)["f"])
+            ctx.require(col_equal(again, col), "C07.state-mutated-by-readonly-call", f"{cls}: transform returns {again!r} after summary()/history()/to_json(), {col!r} before")
         # ------------------------------------------------------------------ C07: coherence of fit_transform / repeated / subset transforms
         if "C07" in props:
             obj2 = build(cls, params, companions)
